@@ -92,6 +92,40 @@ func genStoreHistory(r *Rng, maxOps int) *storeHistory {
 	hashes = append(hashes, "deadbeef", "")
 	fuzzies = append(fuzzies, "", "B9L9BR9P9R9")
 	n := 3 + r.Intn(maxOps-2)
+	// one history in four starts with a "several versions of one key, then a tombstone, then a flush"
+	// pattern: the same signature written 2-3 times (unchanged, or with only part of its index keys
+	// changed, singly and in a batch), deleted or replaced, and the store closed and reopened - the
+	// on-disk shape (stacked versions under one tombstone) that only survives if every write and every
+	// delete of an index key is an ordinary Set / Delete
+	if r.Chance(25) {
+		s0 := genStoreSig(r, h, hashes, fuzzies)
+		h.Ops = append(h.Ops, storeOp{Kind: "add", Sigs: []detection.Signature{s0}})
+		for k := 0; k < 1+r.Intn(2); k++ {
+			s1 := s0
+			switch r.Intn(4) {
+			case 1:
+				s1.EntropyScore = pick(r, storeEntPool)
+			case 2:
+				s1.FuzzyHash = pick(r, fuzzies)
+			case 3:
+				s1.Name = "N2-" + s1.ID
+			}
+			if r.Chance(30) {
+				h.Ops = append(h.Ops, storeOp{Kind: "addmany", Sigs: []detection.Signature{s1, genStoreSig(r, h, hashes, fuzzies)}})
+			} else {
+				h.Ops = append(h.Ops, storeOp{Kind: "add", Sigs: []detection.Signature{s1}})
+			}
+		}
+		if r.Chance(30) {
+			h.Ops = append(h.Ops, storeOp{Kind: "markfp", ID: s0.ID, Note: "n1"})
+		}
+		h.Ops = append(h.Ops, storeOp{Kind: "delete", ID: s0.ID}, storeOp{Kind: "reopen"})
+		if r.Chance(50) {
+			s2 := s0
+			s2.TopologyHash = pick(r, hashes[:3])
+			h.Ops = append(h.Ops, storeOp{Kind: "add", Sigs: []detection.Signature{s2}}, storeOp{Kind: "reopen"})
+		}
+	}
 	for i := 0; i < n; i++ {
 		switch c := r.Intn(100); {
 		case c < 40:
